@@ -55,7 +55,10 @@ Definition timed_out (x : exch) (stamp : Q) : bool :=
 Definition redo_due (x : exch) (stamp : Q) : bool :=
   qltb 0 (x_redo x) && st_expired (x_rtimer x) (Some stamp).
 
-(* Exchange.process() : returns the new state and the messages queued on the stack *)
+(* Exchange.process() : returns the new state and the messages queued on the stack.
+   The model never looks at a message: "a .tx is present" is [Some _], i.e. Python [self.tx is not None]
+   (NOT truthiness -- an empty Packet(), b'' or an empty odict is a present message and is retransmitted;
+   the harness hands such present-but-falsy objects to the implementation, see props/C38/check.py Msgs). *)
 Definition x_process (x : exch) (stamp : Q) : exch * list Z :=
   if timed_out x stamp then (set_flags x true true, [])               (* fail(): failed, finish(): done *)
   else if redo_due x stamp then
